@@ -28,7 +28,7 @@ func (m *RecorderModel) Invoke(x *Exec, method string, args []Value, c *ssa.Call
 	mk := func(i int) Value {
 		t := res.At(i).Type()
 		label := fmt.Sprintf("%s.%s#%d.ret%d", m.name, method, n, i)
-		if m.uf {
+		if m.uf && !(types.IsInterface(t) && typeName(t) == "error") {
 			var ts []*smt.Term
 			for _, a := range args {
 				switch u := unwrapIface(a).(type) {
@@ -39,7 +39,7 @@ func (m *RecorderModel) Invoke(x *Exec, method string, args []Value, c *ssa.Call
 				case StrV:
 					ts = append(ts, x.scalarTerm(u))
 				case SliceV:
-					ts = append(ts, x.bytesTerm(x.opaqueBytes(u)))
+					ts = append(ts, x.bytesTerm(u))
 				}
 			}
 			name := fmt.Sprintf("stub_%s_%s_%d", m.name, method, i)
@@ -160,7 +160,8 @@ func (x *Exec) zzverifStub(name string, c *CallCtx) (Value, bool) {
 	case "UFStub":
 		return ModelV{&RecorderModel{name: x.constStr(a[0], "stub name"), env: x.Env, uf: true}}, true
 	case "AssumeLoopBound":
-		x.loopAssume = x.concreteInt(a[0], "loop bound")
+		x.loopAssumeFn = x.constStr(a[0], "function name")
+		x.loopAssume = x.concreteInt(a[1], "loop bound")
 		return nil, true
 	case "CallCount":
 		n := 0
